@@ -18,7 +18,10 @@ def to_liquid_string(val: Any, autoescape: bool) -> str:
             val = ""
         elif isinstance(val, list):
             if autoescape:
-                val = Markup("").join(soft_str(itm) for itm in val)
+                # Keep items that are marked safe, `Markup` or anything with `__html__`.
+                val = Markup("").join(
+                    itm if hasattr(itm, "__html__") else soft_str(itm) for itm in val
+                )
             else:
                 val = "".join(soft_str(itm) for itm in val)
         elif isinstance(val, range):
